@@ -226,6 +226,10 @@ func (rule AddAssignment) AsRewriteRule(pkg string) (option.RewriteRule, error) 
 		return option.RewriteRule{}, err
 	}
 
+	if err := rule.Assignment.Value.Validate(); err != nil {
+		return option.RewriteRule{}, fmt.Errorf("add_assignment: %w", err)
+	}
+
 	return option.AddAssignment(selector, rule.Assignment), nil
 }
 
